@@ -1081,4 +1081,220 @@ Proof.
     try (injection Ha as <- <-; cbn; split; [discriminate|done]).
   all: destruct d; [discriminate|]; injection Ha as <- <-; cbn; split; [discriminate|done].
 Qed.
+
+(* ------------------------------------------------------------------ the channels of the objects of a typed configuration are typed *)
+Lemma obj_chans_typed Δ c o k :
+  cfg_typed D F teq Δ c -> obj_in c o -> k ∈ provides o \/ k ∈ refs o -> is_Some (Δ !! k).
+Proof.
+  intros Hc Ho Hk. destruct o as [p pp|k0 m].
+  - destruct (ct_procs D F teq Δ c Hc p pp Ho) as (s & rs & Hne & Hprovs & Hty). destruct Hk as [Hk|Hk]; cbn in Hk.
+    + apply elem_In in Hk. unfold cids_of in Hk. apply in_flat_map in Hk as (n & Hn & Hk).
+      rewrite Forall_forall in Hprovs. destruct (Hprovs n Hn) as (c0 & t' & Hc0 & Ht' & _).
+      rewrite Hc0 in Hk. destruct Hk as [<-|[]]. eauto.
+    + apply elem_In in Hk. eapply form_chans_typed; eauto.
+  - destruct Ho as (st & Hst & Hb). destruct (ct_msgs D F teq Δ c Hc k0 st m Hst Hb) as (T & HT & Hm).
+    assert (Hch : forall n t j, chan_ty teq Δ n t -> j ∈ name_chans n -> is_Some (Δ !! j)).
+    { intros n t j Hn Hj. destruct (client_closed teq Δ n t Hn) as [_ (c0 & t' & Hc0 & Ht' & _)].
+      unfold name_chans in Hj. rewrite Hc0 in Hj. apply elem_of_list_singleton in Hj as ->. eauto. }
+    assert (Hpv : forall n t j, prov_ty teq Δ n t -> j ∈ name_chans n -> is_Some (Δ !! j)).
+    { intros n t j (c0 & t' & Hc0 & Ht' & _) Hj. unfold name_chans in Hj. rewrite Hc0 in Hj. apply elem_of_list_singleton in Hj as ->. eauto. }
+    assert (Hk0 : is_Some (Δ !! k0)) by eauto.
+    cbn in Hk. destruct (m_rule m);
+      repeat match goal with
+             | H : exists _, _ |- _ => destruct H
+             | H : _ /\ _ |- _ => destruct H
+             end;
+      destruct Hk as [Hk|Hk];
+      repeat match goal with
+             | H : _ ∈ _ ++ _ |- _ => apply elem_of_app in H as [H|H]
+             | H : _ ∈ _ :: _ |- _ => apply elem_of_cons in H as [->|H]
+             | H : _ ∈ [] |- _ => by apply elem_of_nil in H
+             end; eauto.
+    (* FWD: the providers handed over *)
+    apply elem_In in Hk. unfold cids_of in Hk. apply in_flat_map in Hk as (n & Hn & Hk).
+    match goal with H : Forall _ (m_provs m) |- _ => rewrite Forall_forall in H; specialize (H n Hn) end.
+    eapply Hpv; eauto. by apply elem_In.
+Qed.
+
+Lemma apply_cont_effect c p pp pp1 o :
+  apply_effect c p pp (Eff (Continue pp1) [] [] [] o) =
+  Cfg (<[p := Proc (pr_provs pp1) (pr_body0 pp1) (pr_next pp1 + 0)]> (procs c)) (chans c)
+      (map (fun l => (p, l)) (rev o) ++ out c).
+Proof. reflexivity. Qed.
+
+Lemma apply_new_effect c p provs x b k0 nx cn kn B' :
+  apply_effect c p (Proc provs (FNew x b k0) nx)
+    (Eff (Continue (set_body (Proc provs (FNew x b k0) (S nx)) B')) [Spawn [cn] b] [kn] [] []) =
+  Cfg (<[p := Proc provs B' (S nx + 1 + 1)]> (<[p ++ [(S nx + 1)%nat] := Proc [cn] b 0]> (procs c)))
+      (<[kn := empty_chan]> (chans c)) (out c).
+Proof.
+  rewrite apply_effect_eq. cbn [e_close e_newch e_spawn e_after e_out close_all new_all foldr].
+  unfold procs_after, eff_next1, eff_next0, eff_base. cbn [e_after e_newch e_spawn length pr_next set_body pr_provs pr_body0].
+  rewrite spawned_cons. unfold spawned. cbn [add_spawns fst]. rewrite (left_id_L ∅ (∪)).
+  rewrite <- insert_union_singleton_l. reflexivity.
+Qed.
+
+(* ------------------------------------------------------------------ the invariant and its preservation by asynchronous steps *)
+Record Inv (c : config) : Prop := {
+  inv_typed : exists Δ, cfg_typed D F teq Δ c;
+  inv_topo : Topo c;
+  inv_lin : LinCfg c;
+  inv_core : CoreCfg c;
+  inv_ns : ns_ok c
+}.
+
+Lemma core_call_body fn args b : core_funs F -> call_body F fn args = Some b -> core_form b = true.
+Proof.
+  intros HFc. rewrite call_body_unfold. destruct (get_function F fn (length args)) as [fd|] eqn:Hg; [|discriminate].
+  apply get_function_In in Hg. unfold core_funs in HFc. rewrite Forall_forall in HFc. specialize (HFc fd Hg).
+  assert (Hsub : forall ps ar b0, core_form (sub_all ps ar b0) = core_form b0).
+  { induction ps as [|q ps IH]; intros [|a ar] b0; simpl; auto. by rewrite IH, core_subst. }
+  cbn zeta. destruct (fn_explicit fd); repeat case_match; intros [= <-]; rewrite Hsub, ?core_subst; done.
+Qed.
+
+Theorem inv_step_async c ch c' :
+  core_funs F -> funs_aff F -> Inv c -> step Async D F c ch = SStep c' -> Inv c'.
+Proof.
+  intros HFc HFa [[Δ Hc] Ht Hl Hcc Hns] Hs.
+  assert (Hcu : closed_unused D Async c) by (intros self p0 k st; eapply topo_closed_unused; eauto).
+  destruct (preservation_md D F teq Hteq HF Async Δ c ch c' eq_refl Hc Hcu Hs) as (Δ' & _ & Hc').
+  pose proof (ns_ok_step _ _ _ _ _ _ Hns Hs) as Hns'.
+  assert (Hgoal : Topo c' /\ LinCfg c' /\ CoreCfg c'); [|destruct Hgoal as (H1 & H2 & H3); split; eauto].
+  clear Hc' Hns' Δ'.
+  destruct ch as [p|s0 r0|f0 t0]; [|by cbn in Hs|by cbn in Hs]. cbn [step] in Hs.
+  destruct (procs c !! p) as [pp|] eqn:Hp; [|done].
+  destruct (ct_procs D F teq Δ c Hc p pp Hp) as (s & rs & Hne & Hprovs & Hty).
+  destruct (cc_procs c Hcc p pp Hp) as (Hcf & n0 & Hn0).
+  assert (Hlinp : affr None (pr_body0 pp)) by (exact (lc_procs c Hl p pp Hp)).
+  destruct (action_of Async D pp) as [| |k m|k| |k pv|w] eqn:Ea; try done.
+  - (* dup: excluded, one provider *)
+    apply action_dup_multi in Ea. unfold multi in Ea. rewrite Hn0 in Ea. done.
+  - (* internal *)
+    pose proof (action_internal_form _ _ _ Ea) as Hform. unfold internal_effect in Hs.
+    destruct pp as [provs body nx]. cbn [pr_body0 pr_provs pr_next] in *. subst provs.
+    destruct body as [| | | |x b k0| | | | |fn args pt| | | |l k0]; try done; simpl in Hcf.
+    + (* cut *)
+      apply andb_true_iff in Hcf as [Hcb Hck].
+      unfold fresh_chan in Hs. cbn [pr_next pr_provs pr_body0 eff_step cids_of flat_map chan app] in Hs.
+      injection Hs as <-. rewrite apply_new_effect.
+      set (kn := p ++ [nx]). set (cn := mkName (ident x) false (pol x) (nty x) (Some kn)). set (child := p ++ [(S nx + 1)%nat]).
+      inversion Hty as [| | | | | | | |? ? ? ? x' b' k' A Hbx Hsx Hb Hk0| | | | | | | | | | |]; subst.
+      assert (HkΔ : Δ !! kn = None) by (apply (ct_fresh D F teq Δ c Hc p _ nx [] Hp); cbn; lia).
+      assert (Hkc : chans c !! kn = None).
+      { destruct (chans c !! kn) eqn:E; [|done]. exfalso.
+        eapply (ns_ok_not_fresh_cid c p _ kn nx Hns Hp); [by eexists|cbn; lia|done]. }
+      assert (Hchild : procs c !! child = None).
+      { destruct (procs c !! child) eqn:E; [|done]. exfalso.
+        eapply (ns_ok_not_fresh_pid c p _ child (S nx + 1) Hns Hp); [by eexists|cbn; lia|done]. }
+      assert (Hcp : child <> p).
+      { intros E. apply (f_equal length) in E. unfold child in E. rewrite app_length in E. cbn in E. lia. }
+      assert (Hfresh : forall o, obj_in c o -> kn ∉ provides o /\ kn ∉ refs o).
+      { intros o Ho. split; intros Hk.
+        - apply (proj1 (eq_None_not_Some _) HkΔ). exact (obj_chans_typed Δ c o kn Hc Ho (or_introl Hk)).
+        - apply (proj1 (eq_None_not_Some _) HkΔ). exact (obj_chans_typed Δ c o kn Hc Ho (or_intror Hk)). }
+      assert (Hkp : exists kp, cids_of [n0] = [kp] /\ is_Some (chans c !! kp)).
+      { apply Forall_inv in Hprovs. destruct Hprovs as (c0 & t' & Hc0 & Ht' & _). exists c0. cbn. rewrite Hc0.
+        split; [done|]. apply (ct_dom D F teq Δ c Hc). eauto. }
+      assert (Hkn0 : ~ In kn (form_chans k0)).
+      { intros Hin. apply (proj1 (eq_None_not_Some _) HkΔ). exact (form_chans_typed D F teq Δ _ _ _ _ _ kn Hk0 Hin). }
+      assert (Hpb : forall i, i ∈ form_chans (subst x cn k0) -> i ∈ form_chans (FNew x b k0) \/ i = kn).
+      { intros i Hi. apply elem_In in Hi. apply form_chans_subst in Hi as [Hi|Hi].
+        - left. apply elem_In. simpl. apply in_app_iff. by right.
+        - right. cbn in Hi. by destruct Hi as [<-|[]]. }
+      split; [|split].
+      * apply (topo_new c p (Proc [n0] (FNew x b k0) nx) kn cn child b (subst x cn k0) (S nx + 1 + 1) (out c)); try done.
+        -- intros i Hi. apply elem_In. simpl. apply in_app_iff. left. by apply elem_In.
+        -- intros i Hib Hip. apply elem_In in Hib. destruct (Hpb i Hip) as [Hi| ->].
+           ++ apply elem_In in Hip. apply form_chans_subst in Hip as [Hip|Hip].
+              ** (* i in the child and in the continuation: the cut is not affine *)
+                 apply affr_aff in Hlinp. unfold aff in Hlinp. simpl in Hlinp. rewrite Forall_forall in Hlinp.
+                 destruct (proj1 chans_path_mut b None i Hib) as (pb1 & Hpb1 & Hk1).
+                 destruct (proj1 chans_path_mut k0 None i Hip) as (pk1 & Hpk1 & Hk2).
+                 eapply (dup_app pb1 (rmv [x] pk1)); [apply Hlinp, in_crossk; exists pb1, (rmv [x] pk1); split; [done|split; [apply in_map_iff; eauto|done]]|exact Hk1|by apply rmv_chan].
+              ** cbn in Hip. destruct Hip as [<-|[]]. apply (proj1 (eq_None_not_Some _) HkΔ). exact (form_chans_typed D F teq Δ _ _ _ _ _ kn Hb Hib).
+           ++ apply (proj1 (eq_None_not_Some _) HkΔ). exact (form_chans_typed D F teq Δ _ _ _ _ _ kn Hb Hib).
+      * split.
+        -- intros r rr Hr. cbn in Hr. apply lookup_insert_Some in Hr as [[<- <-]|[Hn Hr]].
+           ++ cbn. simpl in Hlinp. destruct Hlinp as [_ [_ Hlk]].
+              apply (affr_subst D F teq Hteq Δ ∅ None (rs ∖ {[ident x]}) s k0 x cn kn A (proj1 Hbx) eq_refl);
+                [discriminate|set_solver|exact Hk0|exact Hkn0|exact Hlk].
+           ++ apply lookup_insert_Some in Hr as [[<- <-]|[Hn' Hr]]; [cbn; simpl in Hlinp; tauto|exact (lc_procs c Hl r rr Hr)].
+        -- intros k' st' m' Hk' Hb'. cbn in Hk'. apply lookup_insert_Some in Hk' as [[<- <-]|[_ Hk']]; [discriminate|].
+           exact (lc_msgs c Hl k' st' m' Hk' Hb').
+      * split.
+        -- intros r rr Hr. cbn in Hr. apply lookup_insert_Some in Hr as [[<- <-]|[Hn Hr]]; [cbn; rewrite core_subst; eauto|].
+           apply lookup_insert_Some in Hr as [[<- <-]|[Hn' Hr]]; [cbn; eauto|exact (cc_procs c Hcc r rr Hr)].
+        -- intros k' st' m' Hk' Hb'. cbn in Hk'. apply lookup_insert_Some in Hk' as [[<- <-]|[_ Hk']]; [discriminate|].
+           exact (cc_msgs c Hcc k' st' m' Hk' Hb').
+    + (* call *)
+      destruct (call_body F fn args) as [b|] eqn:Ecb; [|done]. cbn [eff_step] in Hs. injection Hs as <-.
+      unfold no_eff. rewrite apply_cont_effect. cbn [pr_provs pr_body0 set_body rev map app].
+      destruct (call_affr Δ rs s fn args pt b Hty HFa Hlinp Ecb) as [Hab Hcb].
+      split; [|split].
+      * apply (topo_cont c p (Proc [n0] (FCall fn args pt) nx)); try done. intros i Hi. apply elem_In. apply Hcb. by apply elem_In.
+      * split.
+        -- intros r rr Hr. cbn in Hr. apply lookup_insert_Some in Hr as [[<- <-]|[Hn Hr]]; [exact Hab|exact (lc_procs c Hl r rr Hr)].
+        -- exact (lc_msgs c Hl).
+      * split.
+        -- intros r rr Hr. cbn in Hr. apply lookup_insert_Some in Hr as [[<- <-]|[Hn Hr]]; [|exact (cc_procs c Hcc r rr Hr)].
+           cbn. split; [eapply core_call_body; eauto|eauto].
+        -- exact (cc_msgs c Hcc).
+    + (* print *)
+      cbn [eff_step] in Hs. injection Hs as <-. rewrite apply_cont_effect. cbn [pr_provs pr_body0 set_body].
+      split; [|split].
+      * apply (topo_cont c p (Proc [n0] (FPrint l k0) nx)); done.
+      * split.
+        -- intros r rr Hr. cbn in Hr. apply lookup_insert_Some in Hr as [[<- <-]|[Hn Hr]]; [cbn; simpl in Hlinp; tauto|exact (lc_procs c Hl r rr Hr)].
+        -- exact (lc_msgs c Hl).
+      * split.
+        -- intros r rr Hr. cbn in Hr. apply lookup_insert_Some in Hr as [[<- <-]|[Hn Hr]]; [cbn; eauto|exact (cc_procs c Hcc r rr Hr)].
+        -- exact (cc_msgs c Hcc).
+  - (* send *)
+    destruct (chans c !! k) as [st|] eqn:Hk; [|done]. destruct (ch_closed st) eqn:Hcl; [done|].
+    destruct (ch_buf st) eqn:Hb; [done|]. injection Hs as <-.
+    destruct (core_send_msg pp k m Hcf Ea) as [Hgc Hfw].
+    destruct (topo_send c p pp k m st Ht Hl Hp Hne Ea Hgc Hk Hcl Hb) as [H1 H2]. split; [exact H1|]. split; [exact H2|].
+    split.
+    + intros r rr Hr. cbn in Hr. apply lookup_delete_Some in Hr as [_ Hr]. exact (cc_procs c Hcc r rr Hr).
+    + intros k' st' m' Hk' Hb'. cbn in Hk'. apply lookup_insert_Some in Hk' as [[<- <-]|[_ Hk']]; [|exact (cc_msgs c Hcc k' st' m' Hk' Hb')].
+      cbn in Hb'. injection Hb' as <-. split; [done|]. intros Hr. rewrite (Hfw Hr). eauto.
+  - (* receive *)
+    destruct (chans c !! k) as [st|] eqn:Hk; [|done].
+    assert (Hcl : ch_closed st = false) by (eapply Hcu; eauto).
+    destruct (ch_buf st) as [m|] eqn:Hb; [|by rewrite Hcl in Hs].
+    destruct (on_message p pp m) as [e|] eqn:He; [|done]. cbn [eff_step] in Hs. injection Hs as <-.
+    destruct (cc_msgs c Hcc k st m Hk Hb) as [Hgc Hmp].
+    assert (Hcr : core_recv pp m).
+    { split; [done|]. destruct (pr_body0 pp) as [| | | | | | |to from d| | | | | |] eqn:Eb; try done. simpl in Hcf.
+      split; [by destruct d|]. intros Hr.
+      (* a positive forward does not receive a forward request: polarities *)
+      pose proof (typed_action D F teq Hteq HF Δ pp (ct_procs D F teq Δ c Hc p pp Hp)) as Hv. rewrite Ea in Hv.
+      inversion Hv as [|k' Hk' Hside Hrecv| |]; subst. destruct Hside as (T & HT & [[Hown _]|[_ Hpos]]).
+      - destruct Hown as (n & Hn & Hcn). assert (E : OProc p pp = OMsg k m); [|discriminate].
+        eapply (topo_ref_unique c Ht _ _ k); eauto; [by exists st| |cbn; rewrite Hr; set_solver].
+        cbn. rewrite Eb. simpl. unfold action_of in Ea. rewrite Eb in Ea. simpl in Ea.
+        destruct (negb (is_self to)); [discriminate|]. destruct (fwd_polarity D from) as [[| |]|?|?]; try discriminate;
+          destruct (chan from) as [cf|] eqn:Ecf; try discriminate. injection Ea as ->.
+        apply elem_of_app. right. unfold name_chans. rewrite Ecf. set_solver.
+      - destruct (ct_msgs D F teq Δ c Hc k st m Hk Hb) as (T' & HT' & Hm). rewrite Hr in Hm. destruct Hm as [Hneg _].
+        rewrite HT in HT'. injection HT' as <-. eapply (pol_unique D); eauto. }
+    destruct (lin_recv_step Δ c p pp k st m e Hc Ht Hl Hp Ea Hk Hb He Hcr) as (pp1 & cl & -> & Haf1).
+    destruct (core_recv_shape p pp m _ n0 He Hcf Hn0 Hgc Hmp) as (pp1' & cl' & E & Hcf1 & n1 & Hn1).
+    injection E as <- <-.
+    split; [eapply topo_recv_step; eauto|]. rewrite apply_recv_effect.
+    assert (Hch' : forall k' st' m', close_all cl (<[k := Chan None (ch_closed st)]> (chans c)) !! k' = Some st' ->
+              ch_buf st' = Some m' -> k' <> k /\ exists st0, chans c !! k' = Some st0 /\ ch_buf st0 = Some m').
+    { intros k' st' m' Hk' Hb'. rewrite close_all_lookup in Hk'.
+      assert (Hx : exists st0, (<[k := Chan None (ch_closed st)]> (chans c)) !! k' = Some st0 /\ ch_buf st0 = Some m').
+      { destruct (decide (k' ∈ cl)); [|eauto]. destruct (_ !! k') as [st0|] eqn:E0; [|discriminate].
+        cbn in Hk'. injection Hk' as <-. cbn in Hb'. eauto. }
+      destruct Hx as (st0 & Hst0 & Hb0). apply lookup_insert_Some in Hst0 as [[<- <-]|[Hn Hst0]]; [discriminate|eauto]. }
+    split; split.
+    + intros r rr Hr. cbn in Hr. apply lookup_insert_Some in Hr as [[<- <-]|[Hn Hr]]; [exact Haf1|exact (lc_procs c Hl r rr Hr)].
+    + intros k' st' m' Hk' Hb'. cbn in Hk'. destruct (Hch' k' st' m' Hk' Hb') as (_ & st0 & H0 & H0').
+      exact (lc_msgs c Hl k' st0 m' H0 H0').
+    + intros r rr Hr. cbn in Hr. apply lookup_insert_Some in Hr as [[<- <-]|[Hn Hr]]; [cbn; eauto|exact (cc_procs c Hcc r rr Hr)].
+    + intros k' st' m' Hk' Hb'. cbn in Hk'. destruct (Hch' k' st' m' Hk' Hb') as (_ & st0 & H0 & H0').
+      exact (cc_msgs c Hcc k' st0 m' H0 H0').
+Qed.
 End Step.
